@@ -64,7 +64,8 @@ static bool run_cfg(const Cfg& cf) {
   // signature: nargs integer arguments (beyond the register arguments they live on the stack)
   FuncSignature sig(cv.id);
   sig.set_ret(TypeId::kInt32);
-  for (int i = 0; i < cf.nargs; i++) sig.add_arg(TypeId::kIntPtr);
+  // nargs >= 200: (nargs-200) 16-byte vectors; nargs >= 100: (nargs-100) doubles: stack argument areas of 256 bytes and more on 32-bit targets
+  for (int i = 0; i < cf.nargs % 100; i++) sig.add_arg(cf.nargs >= 200 ? TypeId::kInt32x4 : cf.nargs >= 100 ? TypeId::kFloat64 : TypeId::kIntPtr);
   FuncDetail func;
   if (func.init(sig, env) != Error::kOk) { c.n("conv_unsupported")++; return true; }
   FuncFrame frame;
@@ -188,7 +189,8 @@ static bool run_cfg(const Cfg& cf) {
   if (!m.returned) FAIL("no-return", "epilog did not return");
   if (m.uninit_read) FAIL("uninit-read", "epilog read stack memory at %llx that was never written", (unsigned long long)m.uninit_addr);
   if (m.ret_target != ret_token) FAIL("return-address", "returned to %llx instead of the caller's return address", (unsigned long long)m.ret_target);
-  uint64_t pops = frame.callee_stack_cleanup();
+  // what the convention prescribes, from FuncDetail (checked against the ABI by C06), not from the frame under test
+  uint64_t pops = func.has_flag(CallConvFlags::kCalleePopsStack) ? func.arg_stack_size() : 0;
   uint64_t want_sp = S0 + (is_x86 ? rs : 0) + pops;
   if (m.sp() != (want_sp & m.addr_mask())) FAIL("sp-after-return", "stack pointer after return is %llx, convention requires %llx (callee pops %llu)", (unsigned long long)m.sp(), (unsigned long long)want_sp, (unsigned long long)pops);
   for (uint32_t i = 0; i < ngp; i++) {
@@ -224,8 +226,8 @@ static Cfg draw(xplor::Chooser& ch, int conv_index, int arch) {
   cf.fp = ch.choose(2); cf.calls = ch.choose(2);
   cf.avx = arch == AA64 ? 0 : ch.choose(3);
   cf.sp_sel = ch.choose(4);
-  static const int na[] = {2, 0, 7, 10};
-  cf.nargs = na[ch.choose(4)];
+  static const int na[] = {2, 0, 7, 10, 32, 132, 225, 131};
+  cf.nargs = na[ch.choose(8)];
   cf.order = ch.choose(2);
   cf.sa_sel = ch.choose(3);
   return cf;
